@@ -21,9 +21,11 @@ Fns    == {"plain", "test", "testAttrs", "async"}
 Loops  == {"for", "while", "loop"}
 Wraps  == {"spawn_blocking", "block_in_place"}
 Inners == Loops \cup Wraps \cup {"closure"}
-Items  == {"unwrap", "expect", "clonePlain", "cloneChain", "cloneLetUnused",
+\* unwrapChain2 / unwrapChainLines: two .unwrap() calls in one method chain (on one line / one call per line);
+\* expectThenUnwrap: `.expect(..)` and `.unwrap()` in one chain
+Items  == {"unwrap", "expect", "unwrapChain2", "unwrapChainLines", "expectThenUnwrap", "clonePlain", "cloneChain", "cloneLetUnused",
            "blockFs", "blockFsUse", "blockSleep", "blockNet"}
-LinterOf(it) == CASE it \in {"unwrap", "expect"} -> "unwrap-abuse"
+LinterOf(it) == CASE it \in {"unwrap", "expect", "unwrapChain2", "unwrapChainLines", "expectThenUnwrap"} -> "unwrap-abuse"
                   [] it \in {"clonePlain", "cloneChain", "cloneLetUnused"} -> "clone-abuse"
                   [] OTHER -> "blocking-async"
 
@@ -41,7 +43,7 @@ LoopBehindClosure(s) == ~InLoop(s) /\ ToSet(s.inner) \cap Loops # {}
 
 Exempt(s, o) == InTest(s) /\ o.allowInTests
 Reported(s, o) ==
-    CASE s.item = "unwrap" -> ~Exempt(s, o)
+    CASE s.item \in {"unwrap", "unwrapChain2", "unwrapChainLines", "expectThenUnwrap"} -> ~Exempt(s, o)
       [] s.item = "expect" -> ~o.allowExpect /\ ~Exempt(s, o)
       [] s.item = "clonePlain"     -> InLoop(s) /\ o.detectLoop /\ ~Exempt(s, o)
       [] s.item = "cloneChain"     -> ((InLoop(s) /\ o.detectLoop) \/ o.detectChain) /\ ~Exempt(s, o)
@@ -56,6 +58,8 @@ Count(s, o) ==
     IF s.item = "cloneChain"
     THEN IF Exempt(s, o) THEN 0
          ELSE B2N((InLoop(s) /\ o.detectLoop) \/ o.detectChain) + B2N(InLoop(s) /\ o.detectLoop)
+    ELSE IF s.item \in {"unwrapChain2", "unwrapChainLines"} THEN 2 * B2N(~Exempt(s, o))       \* every call, each once
+    ELSE IF s.item = "expectThenUnwrap" THEN B2N(~Exempt(s, o)) + B2N(~o.allowExpect /\ ~Exempt(s, o))
     ELSE B2N(Reported(s, o))
 \* sites the documentation leaves open (no verdict)
 Unspecified(s) == (LinterOf(s.item) = "clone-abuse" /\ LoopBehindClosure(s))
